@@ -706,6 +706,17 @@ type c04DocTwo struct {
 	Tags []string
 }
 
+// c04Tagged carries struct tags, as records that are also written out as JSON or YAML do.
+// A script names fields by their Go names; tags mean nothing to it.
+type c04Tagged struct {
+	Name   string   `json:"name"`
+	SentAt int      `json:"sent_at,omitempty" yaml:"sentAt"`
+	Size   float64  `json:"-"`
+	Keep   []string `json:"keep" xml:"k"`
+	Plain  bool     `evalfilter:"flag" json:"Plain"`
+	Other  string   `json:",omitempty"`
+}
+
 var c04MethodCalls int64
 
 // c04Tempting has fields, and methods a careless engine could take for fields.
@@ -763,6 +774,8 @@ func c04Shapes(c *ev.Ctx) {
 		{"own fields first, embedded struct last, by pointer", `return [Name, Size, Name + "!"];`, "ARRAY:[outer, 3, outer!]", &c04DocLast{Name: "outer", Size: 3, C04Audit: C04Audit{Name: "inner", By: "bob", Size: 77}}},
 		{"two embedded structs between own fields", `return [Size, Name, Tags, type(Size)];`, "ARRAY:[3, outer, [t], integer]", c04DocTwo{Size: 3, C04Stamp: C04Stamp{Size: 1.5, At: "noon"}, Name: "outer", C04Audit: C04Audit{Name: "inner", Size: 77}, Tags: []string{"t"}}},
 		{"two embedded structs between own fields, by pointer", `return [Size, Name, Tags];`, "ARRAY:[3, outer, [t]]", &c04DocTwo{Size: 3, C04Stamp: C04Stamp{Size: 1.5, At: "noon"}, Name: "outer", C04Audit: C04Audit{Name: "inner", Size: 77}, Tags: []string{"t"}}},
+		{"struct tags do not rename fields", `return [Name, SentAt, Size, Keep, Plain, Other, name, sent_at, sentAt, keep, k, flag];`, "ARRAY:[n, 5, 1.5, [x], true, o, null, null, null, null, null, null]", c04Tagged{Name: "n", SentAt: 5, Size: 1.5, Keep: []string{"x"}, Plain: true, Other: "o"}},
+		{"struct tags do not rename fields, by pointer", `return [Name + "!", SentAt + 1, len(Keep), name, keep];`, "ARRAY:[n!, 6, 1, null, null]", &c04Tagged{Name: "n", SentAt: 5, Size: 1.5, Keep: []string{"x"}, Plain: true, Other: "o"}},
 		{"methods are not fields", `return [Archive, Save, Total, String, Delete, Describe, Count, Label];`, "ARRAY:[null, null, null, null, null, null, 2, l]", c04Tempting{Count: 2, Label: "l"}},
 		{"methods are not fields, by pointer", `if (Count > 1 && Archive) { return "ran"; } x = Delete; y = Total; return [x, y, Save ? 1 : 0, Count, Label, $Describe];`, "ARRAY:[null, null, 0, 2, l, null]", &c04Tempting{Count: 2, Label: "l"}},
 	}
